@@ -156,6 +156,33 @@ def rerun(names, tier, all_props=False):
     return rows
 
 
+def robust(names, seeds):
+    """ Which kept changes does the quick tier miss at other VERIF_SEED
+    values? Nothing is recorded. """
+    for name in sorted(os.listdir(SEEDED)):
+        path = os.path.join(SEEDED, name)
+        if not os.path.isdir(path) or (names and name not in names)\
+                or not os.path.exists(os.path.join(path, "meta.json")):
+            continue
+        meta = json.load(open(os.path.join(path, "meta.json")))
+        if not meta.get("kept"):
+            continue
+        wt = scratch_worktree()
+        try:
+            sh("git apply {}".format(os.path.join(path, "patch.diff")), cwd=wt)
+            codes = []
+            for seed in seeds:
+                os.environ["VERIF_SEED"] = str(seed)
+                code, _ = run_check(meta["property"], wt, "quick")
+                codes.append(code)
+        finally:
+            os.environ.pop("VERIF_SEED", None)
+            remove_worktree(wt)
+        print(name, "seeds", seeds, "exit", codes,
+              "" if all(c == 1 for c in codes) else "<-- MARGINAL")
+        sys.stdout.flush()
+
+
 def readme():
     """ Regenerate seeded/README.md from the meta.json files. """
     rows = []
@@ -193,9 +220,14 @@ def main():
     b.add_argument("names", nargs="*")
     b.add_argument("--tier", default="quick")
     sub.add_parser("readme")
+    c = sub.add_parser("robust")
+    c.add_argument("names", nargs="*")
+    c.add_argument("--seeds", default="2,3")
     args = parser.parse_args()
     if args.cmd == "readme":
         readme()
+    elif args.cmd == "robust":
+        robust(args.names, [int(x) for x in args.seeds.split(",")])
     elif args.cmd == "ingest":
         ingest(args.property, args.source, args.name)
     else:
